@@ -329,7 +329,10 @@ pub fn decode_c08(b: &[u8]) -> c08::Case {
         2 => r.u16() as usize % 3000,
         _ => [700, 1100, 2 * n + 3, 5 * n][r.u8() as usize % 4],
     };
-    c08::Case { cfg: Cfg { kind, p, m: X(m) }, scalar, prefix, zv, level: X(level), vol: X(1.0 + r.u8() as f64), flat_len, neg_zero_mask: 0, gen_prefix: None, reset_before_flat: false }
+    let vol = 1.0 + r.u8() as f64;
+    // trailing byte (absent in older corpus files: 0): reset() between the activity and the flat stretch
+    let reset_before_flat = r.u8() % 4 == 1;
+    c08::Case { cfg: Cfg { kind, p, m: X(m) }, scalar, prefix, zv, level: X(level), vol: X(vol), flat_len, neg_zero_mask: 0, gen_prefix: None, reset_before_flat }
 }
 
 pub fn decode_c09(b: &[u8]) -> c09::Case {
